@@ -3,6 +3,7 @@
 package server
 
 import (
+	"encoding/json"
 	"io"
 	"net/http"
 	"net/url"
@@ -128,6 +129,8 @@ func VF_C17_L1_HTTP() {
 	reqsAtDirect := 0
 	errCode := "" // the first service error answered (decides the status)
 	trigger := zzvf.ParamOr("trigger", 0) == 1
+	tokenSent := false
+	resourceAnswer := false  // the call was answered with a resource response
 	var metaCookies []string // Set-Cookie values supplied by the metas answered so far
 	direct := false          // a direct-response status has ended the request
 	var directStatus int
@@ -149,12 +152,37 @@ func VF_C17_L1_HTTP() {
 			w.mq.event("event.test.model", "reaccess", nil)
 			w.settle()
 		}
+		if strings.HasPrefix(q.subject, "access.") && !tokenSent && zzvf.ParamOr("tokenevent", 0) == 1 && zzvf.Choose("token-event-while-access-pending", 2) == 1 {
+			// the service sets the connection's token while the access
+			// request is unanswered: what follows carries the new token
+			tokenSent = true
+			zzvf.Note("event: conn token while the access request is pending")
+			w.mq.event("conn."+cl.c.cid, "token", []byte(`{"token":{"t":2}}`))
+			w.settle()
+		}
+		if strings.HasPrefix(q.subject, "call.") && tokenSent {
+			var p struct {
+				Token json.RawMessage `json:"token"`
+				CID   string          `json:"cid"`
+			}
+			json.Unmarshal(q.payload, &p)
+			zzvf.Reach("c17l1-token-checked")
+			zzvf.Assert(string(p.Token) == `{"t":2}` && p.CID == cl.c.cid, "call-request-carries-the-connections-current-token")
+		}
 		if !strings.HasPrefix(q.subject, "auth.") && errCode == "" && zzvf.ParamOr("errors", 0) == 1 {
 			codes := []string{"", "system.notFound", "system.methodNotFound", "system.accessDenied", "system.timeout", "system.internalError", "system.invalidParams"}
 			if k := zzvf.Choose("error-answer", len(codes)); k > 0 {
 				errCode = codes[k]
 				zzvf.Note("service: " + q.subject + " -> error " + errCode)
-				w.mq.answer(q, vfErrPayload(errCode, "x"), nil)
+				if !strings.HasPrefix(q.subject, "get.") && zzvf.Choose("error-with-meta", 2) == 1 {
+					// an error answer may carry a meta object too; header
+					// names come in any letter case
+					kind := q.subject[:strings.IndexByte(q.subject, '.')]
+					metaCookies = append(metaCookies, kind+"=1")
+					w.mq.answer(q, []byte(`{"error":{"code":"`+errCode+`","message":"x"},"meta":{"header":{"content-type":["text/evil"],"access-control-allow-origin":["*"],"sec-websocket-protocol":["evil"],"access-control-allow-credentials":["evil"],"set-cookie":["`+kind+`=1"],"x-svc":["1"]}}}`), nil)
+				} else {
+					w.mq.answer(q, vfErrPayload(errCode, "x"), nil)
+				}
 				w.settle()
 				continue
 			}
@@ -186,13 +214,18 @@ func VF_C17_L1_HTTP() {
 		case strings.HasPrefix(q.subject, "access."):
 			payload = build(`"result":{"get":true,"call":"*"}`)
 		case strings.HasPrefix(q.subject, "call."):
-			switch zzvf.Choose("call-answer", 3) {
+			switch zzvf.Choose("call-answer", 4) {
 			case 0:
 				payload = build(`"result":{"ok":[1,2]}`)
 			case 1:
 				payload = build(`"result":null`)
 			case 2:
+				resourceAnswer = true
 				payload = build(`"resource":{"rid":"test.other.x-y"}`)
+			case 3:
+				// a resource response naming a query resource
+				resourceAnswer = true
+				payload = build(`"resource":{"rid":"test.other?q=1"}`)
 			}
 		default:
 			payload = []byte(`{"result":{"model":{"a":1}}}`)
@@ -235,6 +268,19 @@ func VF_C17_L1_HTTP() {
 		}
 		zzvf.Assert(found, "set-cookie-values-of-all-metas-accumulate")
 	}
+	// protected headers
+	ct := rec.hdr["Content-Type"]
+	for _, v := range ct {
+		zzvf.Assert(v != "text/evil", "meta-cannot-replace-content-type")
+	}
+	for _, v := range rec.hdr["Access-Control-Allow-Origin"] {
+		zzvf.Assert(v != "*", "meta-cannot-replace-allow-origin")
+	}
+	for k, vs := range rec.hdr {
+		for _, v := range vs {
+			zzvf.Assert(v != "text/evil" && v != "evil" && !(v == "*" && strings.ToLower(k) == "access-control-allow-origin"), "meta-cannot-set-a-protected-header-in-any-letter-case")
+		}
+	}
 	if errCode != "" && !direct {
 		want := map[string]int{"system.notFound": 404, "system.methodNotFound": 404, "system.accessDenied": 401, "system.timeout": 404, "system.internalError": 500, "system.invalidParams": 400}[errCode]
 		zzvf.Reach("c17l1-error")
@@ -256,15 +302,11 @@ func VF_C17_L1_HTTP() {
 			zzvf.Assert(rec.status == 200, "get-succeeds-with-200")
 		case "POST":
 			zzvf.Assert(rec.status == 200 || rec.status == 204, "post-succeeds-with-200-or-204")
+			if resourceAnswer {
+				loc := rec.hdr.Get("Location")
+				zzvf.Assert(rec.status == 200 && strings.HasPrefix(loc, "/api/test/other"), "resource-response-gives-200-with-location")
+			}
 		}
-	}
-	// protected headers
-	ct := rec.hdr["Content-Type"]
-	for _, v := range ct {
-		zzvf.Assert(v != "text/evil", "meta-cannot-replace-content-type")
-	}
-	for _, v := range rec.hdr["Access-Control-Allow-Origin"] {
-		zzvf.Assert(v != "*", "meta-cannot-replace-allow-origin")
 	}
 	_, ok := cl.c.serv.conns[cl.c.cid]
 	zzvf.Assert(!ok, "temporary-connection-disposed")
